@@ -109,12 +109,22 @@ def _nvl_wrong_count(d):
     return False
 
 
+_STR = re.compile(rb"'[^'\n]*'|\"[^\"\n]*\"")
+_GROUP_NOT_SELF = re.compile(rb'(?<!SELF)(?<!SELF )\\', re.I)
+
+
+def _group_on_non_self(d):
+    """A group qualifier `x\\e` whose operand is not SELF (outside string literals)."""
+    return bool(_GROUP_NOT_SELF.search(_STR.sub(b"''", d)))
+
+
 MASKS = (
     ('token cut by end of file', lambda d, tool: _ends_in_open_token(d)),
     ('tail remark of 255 chars or more x after semicolon', lambda d, tool: bool(_LONG_TAIL.search(d))),
     ('SELF in a SUPERTYPE OF expression', lambda d, tool: bool(_SUPER_SELF.search(d))),
     ('UNIQUE rule on SELF\\super.attr followed by a plain attribute rule', lambda d, tool: bool(_UNIQUE_QUAL.search(d))),
     ('NVL with other than two arguments', lambda d, tool: _nvl_wrong_count(d)),
+    ('group qualifier on a non-entity expression', lambda d, tool: _group_on_non_self(d)),
     ('INCLUDE directive', lambda d, tool: bool(_INCLUDE.search(d))),
     ('REPEAT without control (exp2python)', lambda d, tool: tool == 'exp2python' and bool(_BARE_REPEAT.search(d))),
     ('interface item renamed with AS (exp2python)', lambda d, tool: tool == 'exp2python' and bool(_AS_RENAME.search(d))),
